@@ -247,6 +247,7 @@ def main(ctx, replay=None):
                  input_distribution=dist, coverage_flags=covflags,
                  timing=dict(rw_timeout_ms=dict(stall_cases=rpclib.STALL_MS, other_cases=rpclib.FAULT_MS),
                              fixed_sleep_in_handleResponse_ms=rpclib.LOOP_SLEEP_MS, slack_ms=rpclib.SLACK_MS,
+                             own_deadline_slack_ms=rpclib.OWN_SLACK_MS,
                              slowest_call_in_a_fault_case_ms=maxms,
                              race=[dict(total=r.get("total"), ok=r.get("ok_calls"), slow_over_500ms=r.get("slow"), max_ms=r.get("max_ms"),
                                         hung=bool(r.get("hung"))) for r in races]),
@@ -271,7 +272,8 @@ def main(ctx, replay=None):
         "(1024) and the order in which the loop takes requests and responses that are ready at the same time are Go runtime: the harness "
         "fixes the order by construction (requests in sequence-number order as seen by the peer, faults only after all first-wave requests "
         "were received) and the model's result does not depend on the remaining freedom",
-        "'promptly' is a measured bound: rw timeout + the fixed 2 s sleep in handleResponse + slack; sync/unmap (30 s) and ping (40 s) "
+        "'promptly' is a measured bound: rw timeout + the fixed 2 s sleep in handleResponse + slack, and rw timeout + 0.8 s for the call "
+        "whose own deadline expired (it returns at the deadline; nothing else is on that path); sync/unmap (30 s) and ping (40 s) "
         "deadlines are not configurable from outside, a stall with only such calls waiting is not driven",
         "sequence-number wrap (2^32 requests with one outstanding) is proved to break matching on the model (C15_matching_without_guard_refuted) "
         "and is not reproduced on the implementation (c.seq is unexported)",
